@@ -141,6 +141,10 @@ fn shrink_stmt(s: &Stmt) -> Vec<Stmt> {
             out.push(Stmt::Request(first.clone()));
         }
         Stmt::CapRequest(l) => out.push(Stmt::Request(l.clone())),
+        Stmt::Burst { n, tag } if *n > 1 => {
+            out.push(Stmt::Burst { n: n / 2, tag: *tag });
+            out.push(Stmt::Burst { n: n - 1, tag: *tag });
+        }
         Stmt::Yield(n) if *n > 1 => out.push(Stmt::Yield(n - 1)),
         _ => {}
     }
